@@ -148,6 +148,7 @@ func runC23(c *Ctx) []Obligation {
 	out := c.Rows(rows)
 	out = append(out, appsEditRouting(c, P)...)
 	out = append(out, nodesStakeRouting(c, P)...)
+	out = append(out, mapEqualityHelper(c, P)...)
 	return out
 }
 
